@@ -33,6 +33,13 @@ PROBES = [
     ("preprocess_str", "`define define 1\n"),                       # macro name lexed under the directive keyword set
     ("preprocess_str", "a `ifdef X b `endif c\n"),
     ("parse_sv_str_incomplete", "module a; endmodule junk ("),
+    # the preprocessor lexes macro names with the keyword set in force: sensitive to a leaked version stack
+    ("preprocess_str", "`ifdef logic\na\n`endif\n"),
+    ("preprocess_str", "`undef bit\n`ifndef int\nx\n`endif\n"),
+    ("parse_sv_str", "`ifndef logic\nmodule m; endmodule\n`endif\n"),
+    # comments are white space only outside directive mode: sensitive to a leaked directive stack
+    ("parse_sv_str", "module m; /* c */ wire /* d */ x; // e\nendmodule\n"),
+    ("parse_lib_str", "library /* c */ l \"*.v\"; // d\n"),
 ]
 
 
